@@ -37,6 +37,8 @@ fn main() {
             std::thread::spawn(move || {
                 std::thread::sleep(limit);
                 eprintln!("INCONCLUSIVE property={}: watchdog after {} s", wid, limit.as_secs());
+                // child processes (concurrency and long-game binaries, builds) must not outlive the check
+                let _ = std::process::Command::new("pkill").arg("-9").arg("-P").arg(std::process::id().to_string()).status();
                 std::process::exit(2);
             });
             // a panic of the harness itself is reported as inconclusive (2), never as 101 or as a violation
